@@ -19,12 +19,15 @@ def run(prop, tier):
         jobs.append(dict(src=SRC, args=["unlocked", "-p", p, "-s", 1, "--", w, "i"]))
     jobs.append(dict(src=SRC, args=["held", "-p", p + 1, "-s", 1]))
     acc = mcsched.run_jobs(prop, tier, jobs)
+    extra = {}
+    if tier == "thorough" and not acc.viols:
+        extra = mcsched.conformance(acc, [j for j in jobs if j["args"][0] not in ("values", "barrier")])
     cov = mcsched.coverage(acc, "stateless DFS over all interleavings with <= %d preemptions, <= 1 spurious wake-up and every choice of the waiter a signal wakes, of "
                                 "producer/consumer (capacity-1 buffer, signal), gate (broadcast), token (signal after unlock / inside one critical section) and "
                                 "mutex-held-on-return programs using p_cond_variable_* and PMutex over the POSIX model; oracles: multiset produced = consumed, every thread "
                                 "finishes (no missed event), model contract checks (cond_wait with the caller's initialised, held mutex), mutex owner on return; "
                                 "non-trivial = executions in which a thread really waited on the condition variable" % p)
-    return common.finish(prop, tier, "model_checking", acc, cov, mcsched.ASSUME, t0)
+    return common.finish(prop, tier, "model_checking", acc, cov, mcsched.ASSUME, t0, extra=extra)
 
 
 replay = mcsched.replay
